@@ -7,11 +7,13 @@ import (
 	batchv1 "k8s.io/api/batch/v1"
 	corev1 "k8s.io/api/core/v1"
 	metav1 "k8s.io/apimachinery/pkg/apis/meta/v1"
+	"k8s.io/apimachinery/pkg/apis/meta/v1/unstructured"
 	"k8s.io/cli-runtime/pkg/resource"
 )
 
 // Kinds a workload can be expressed as ("Pods" = bare Pods sharing one controller ownerReference).
-var ExpressKinds = []string{"Deployment", "ReplicaSet", "StatefulSet", "DaemonSet", "Job", "CronJob", "ReplicationController", "Pods"}
+// "PodsExtraOwner": the same, each pod also carrying a non-controller ownerReference listed first.
+var ExpressKinds = []string{"Deployment", "ReplicaSet", "StatefulSet", "DaemonSet", "Job", "CronJob", "ReplicationController", "Pods", "PodsExtraOwner"}
 
 // Express renders workload wl as kind k with the given replica count (r < 0: field absent).
 // Workload-level metadata.labels and spec.selector deliberately differ from the pod-template
@@ -45,14 +47,22 @@ func Express(wl Workload, k string, r int) []*resource.Info {
 		return []*resource.Info{info(&batchv1.CronJob{ObjectMeta: om, Spec: batchv1.CronJobSpec{Schedule: "* * * * *", JobTemplate: batchv1.JobTemplateSpec{ObjectMeta: metav1.ObjectMeta{Labels: decoy}, Spec: batchv1.JobSpec{Parallelism: rp, Selector: sel, Template: tmpl}}}}, "batch/v1", k)}
 	case "ReplicationController":
 		return []*resource.Info{info(&corev1.ReplicationController{ObjectMeta: om, Spec: corev1.ReplicationControllerSpec{Replicas: rp, Selector: map[string]string{"app": "decoy-selector"}, Template: &tmpl}}, "v1", k)}
-	case "Pods":
+	case "Pods", "PodsExtraOwner":
 		var res []*resource.Info
 		n := r
 		if n < 1 {
 			n = 1
 		}
 		for i := 0; i < n; i++ {
-			res = append(res, InfoPod(wl.NS, fmt.Sprintf("%s-pod%d", wl.Name, i), wl.Name, wl.Labels, wl.Ports))
+			inf := InfoPod(wl.NS, fmt.Sprintf("%s-pod%d", wl.Name, i), wl.Name, wl.Labels, wl.Ports)
+			if k == "PodsExtraOwner" {
+				md := inf.Object.(*unstructured.Unstructured).Object["metadata"].(map[string]interface{})
+				refs := md["ownerReferences"].([]interface{})
+				extra := map[string]interface{}{"apiVersion": "example.com/v1", "kind": "PodGroup", "name": "group-" + wl.Name, "uid": "u1", "controller": false}
+				noflag := map[string]interface{}{"apiVersion": "example.com/v1", "kind": "Audit", "name": "audit-" + wl.Name, "uid": "u2"}
+				md["ownerReferences"] = append([]interface{}{extra, noflag}, refs...)
+			}
+			res = append(res, inf)
 		}
 		return res
 	}
@@ -61,7 +71,7 @@ func Express(wl Workload, k string, r int) []*resource.Info {
 
 // ExpressedKind is the [Kind] suffix of the peer of a workload expressed as k.
 func ExpressedKind(k string) string {
-	if k == "Pods" {
+	if k == "Pods" || k == "PodsExtraOwner" {
 		return "ReplicaSet"
 	}
 	return k
